@@ -205,6 +205,13 @@ def run(ctx):
                     for k in (1, n - 1, n + 1, -1):
                         ctx.guard(check_case, {"word": wd, "feats": feats_to_json([Feat(0, "u1", (), ((a_[0], a_[1], st), (b_[0], b_[1], st)))]),
                                                "track": list(range(n)), "k": k, "k2": 1, "m": 1})
+    # … and the three-part `source` features that begin at 0 and finish at the end of the record, joined or ordered
+    for n in ((4,) if ctx.tier == "quick" else (3, 4, 5)):
+        wd = "ACgTN"[:n]
+        for j_, ps in enumerate(gen.source_lookalikes(n)):
+            st = (0, 1, -1)[j_ % 3]
+            ctx.guard(check_case, {"word": wd, "feats": feats_to_json([Feat(0, "u%d" % (1 + j_ % 2), (), tuple((s_, e_, st) for s_, e_ in ps))]),
+                                   "track": list(range(n)), "k": (1, n - 1)[j_ % 2], "k2": 1, "m": 1})
     ctx.extra["cov_small_scope"] = "all single-part locations on records of length 1..{}, every shift in [-n-1, 2n+1]".format(top)
     for _ in range(ctx.budget(1500, 60000)):
         ctx.guard(check_case, gen_case(ctx.rng))
